@@ -12,8 +12,9 @@
   The util transformers (escape, unescape, resolvers, URL escape, case folding, label normalisation) are total
   definitions without any panic outcome; their recursion is by structural or well-founded descent
   (GM.Model.Util, GM.Model.Writer) and they are tied to the Go functions by the `util` correspondence.
-  What is NOT proved: the composition through the block parsers and the concrete inline parsers (their Lean
-  models are being built as separate packages), stack depth, super-linear running time. That part is
+  The whole BLOCK PHASE is modelled (GM.Model.Blocks) and proved to terminate on every byte string.
+  What is NOT proved: no-panic of the block phase as a whole, the concrete inline parsers (their Lean model is
+  being built as a separate package), stack depth, super-linear running time. That part is
   searched: component `total` (exhaustive short strings + mutated corpus under the configuration lattice,
   panic recovery, per-input watchdog, Convert vs Parse+Render).
 -/
@@ -25,6 +26,7 @@ import GM.Props.C18
 import GM.Props.C20
 import GM.Props.C05a
 import GM.Props.C02a
+import GM.Props.Blocks
 
 namespace GM.Props.C01
 open GM
@@ -65,5 +67,13 @@ theorem inline_loop_fuel_suffices : type_of% @GM.Props.C05a.fuel_suffices := @GM
 /-- The closing-fence and ATX-open recognisers index their line safely for every line. -/
 theorem fence_close_no_panic : type_of% @GM.Props.C02a.fence_close_noPanic := @GM.Props.C02a.fence_close_noPanic
 theorem atx_open_no_panic : type_of% @GM.Props.C02a.atx_open_noPanic := @GM.Props.C02a.atx_open_noPanic
+
+/-- The whole block phase (parseBlocks / openBlocks / closeBlocks with the ten block parsers, as modelled in
+    GM.Model.Blocks and tied to the real parser by the `blocks` correspondence) terminates for EVERY byte string:
+    neither line loop needs more than (number of newlines + 3) iterations and the container retry loop never
+    exceeds its bound. (That the model's explicit Go-panic outcome is unreachable is stated as
+    `GM.Props.Blocks.NoPanic` and not yet proved; no panic was seen on 17.8M sources.) -/
+theorem block_phase_terminates : type_of% @GM.Props.Blocks.parseBlocks_fuel_suffices := @GM.Props.Blocks.parseBlocks_fuel_suffices
+theorem block_phase_outcome : type_of% @GM.Props.Blocks.parseBlocks_outcome := @GM.Props.Blocks.parseBlocks_outcome
 
 end GM.Props.C01
